@@ -41,6 +41,17 @@ def cases(ctx):
                               conv("::std::boxed::Box<str>"), conv("::std::borrow::Cow<'static, str>")]:
         # (derive lists naming a crate that does not exist, or repeating a built-in derive, are for the syntactic half only)
         out.append(("lattice" if "derives" not in st else "lattice-syn", {"settings": st, "calls": [{"root": holder}]}))
+    # per-type patch derives: comparison / hashing traits requested for ONE type whose name other definitions extend by a word
+    # (some of them hold a float and could not derive Eq / Hash): they appear on the patched type only
+    scope = {"title": "Holder2", "type": "object", "properties": {"a": {"$ref": "#/definitions/Sample"}, "b": {"$ref": "#/definitions/SampleRate"}},
+             "definitions": {"Sample": {"type": "object", "properties": {"n": {"type": "integer"}, "s": {"type": "string"}}},
+                             "SampleRate": {"type": "object", "properties": {"hz": {"type": "number"}}},
+                             "SampleRateLimit": {"type": "object", "properties": {"max": {"type": "number"}}},
+                             "Samp": {"type": "object", "properties": {"x": {"type": "number"}}},
+                             "Kind": {"type": "string", "enum": ["a", "b"]}, "KindOf": {"type": "object", "properties": {"w": {"type": "number"}}}}}
+    for pd in ({"name": "Sample", "derives": ["PartialEq", "Eq", "Hash"]}, {"name": "Kind", "derives": ["PartialOrd"]},
+               {"name": "SampleRate", "derives": ["PartialEq"], "rename": "Rate"}):
+        out.append(("lattice-patch", {"settings": {"patch": [pd]}, "calls": [{"root": scope}]}))
     import corpus
     for cid, cdoc, _ in corpus.documents():
         if cid.startswith(("hand:", "file:")): out.append(("corpus:" + cid, {"settings": settings[len(cid) % 2], "calls": [{"root": cdoc}]}))
@@ -86,10 +97,13 @@ def run(ctx):
     kinds = {}
     for k, i in enumerate(ok):
         user = set(cs[i][1]["settings"].get("derives", []))
+        patches = cs[i][1]["settings"].get("patch", [])
         for it in real[k]["items"]:
             items += 1
             kinds[it["kind"]] = kinds.get(it["kind"], 0) + 1
-            fl = oracle_item(it, user)
+            # a patch's derives are requested for the patched type (under its new name) and for no other
+            mine = set(d_ for p_ in patches if it["name"] == (p_.get("rename") or p_["name"]) for d_ in p_.get("derives", []))
+            fl = oracle_item(it, user | mine)
             if fl: new_fail.append((cs[i], it["name"], fl))
         if model[k] is not None:
             d = m2.diff_case(real[k], model[k])
